@@ -555,6 +555,14 @@ func (w *walker) call(c *ast.CallExpr) (toks []Tok, handled bool) {
 		if w.f.Src(c.Args[0]) == "make([]byte, 1)" {
 			return []Tok{{K: "pad1"}}, true
 		}
+		// p := make([]byte, N); r.Read(p)
+		if id, ok := c.Args[0].(*ast.Ident); ok {
+			if d, ok := w.en["="+id.Name]; ok && strings.HasPrefix(d, "make([]byte, ") {
+				if n, err := strconv.Atoi(strings.TrimSuffix(strings.TrimPrefix(d, "make([]byte, "), ")")); err == nil {
+					return []Tok{{K: "raw", N: int64(n)}}, true
+				}
+			}
+		}
 		return []Tok{{K: "other", S: w.f.Src(c)}}, true
 	case "make":
 		if w.read {
@@ -653,6 +661,57 @@ var Deep bool
 // WalkCases makes a switch on a decoded field contribute a marker per case followed by the case
 // body's tokens (instead of one opaque dynamic token).
 var WalkCases bool
+
+// NilGuards collects the writer-side `if x != nil` guards that were walked through.
+var NilGuards []string
+
+// CaseSel selects, for a switch whose tag has the given source text, the case to walk.
+var CaseSel = map[string]string{}
+
+// CaseLabels lists the case labels of every switch on tag (source text) reachable in dir's
+// recv.method (sibling methods followed), in order of first appearance.
+func CaseLabels(dir, recv, method, tag string) []string {
+	p := Load(dir)
+	seen := map[string]bool{}
+	var res []string
+	done := map[string]bool{}
+	var visit func(m string)
+	visit = func(m string) {
+		if done[m] {
+			return
+		}
+		done[m] = true
+		fd, ok := p.Funcs[recv+"."+m]
+		if !ok || fd.Body == nil {
+			return
+		}
+		f := p.FileOf[recv+"."+m]
+		ast.Inspect(fd.Body, func(n ast.Node) bool {
+			switch x := n.(type) {
+			case *ast.SwitchStmt:
+				if x.Tag != nil && f.Src(x.Tag) == tag {
+					for _, c := range x.Body.List {
+						for _, e := range c.(*ast.CaseClause).List {
+							if l := f.Src(e); !seen[l] {
+								seen[l] = true
+								res = append(res, l)
+							}
+						}
+					}
+				}
+			case *ast.CallExpr:
+				if sel, ok := x.Fun.(*ast.SelectorExpr); ok {
+					if _, isM := p.Funcs[recv+"."+sel.Sel.Name]; isM {
+						visit(sel.Sel.Name)
+					}
+				}
+			}
+			return true
+		})
+	}
+	visit(method)
+	return res
+}
 
 func (w *walker) hasIOArg(c *ast.CallExpr) bool {
 	for _, a := range c.Args {
@@ -828,7 +887,17 @@ func (w *walker) declare(s ast.Stmt) {
 
 func (w *walker) block(list []ast.Stmt) []Tok {
 	var res []Tok
-	for _, s := range list {
+	for i, s := range list {
+		// early return on the version argument: `if version > X { …; return }` makes the rest of the
+		// block the else branch
+		if is, ok := s.(*ast.IfStmt); ok && is.Else == nil && is.Init == nil && w.verArg != "" && w.mentionsVersion(is.Cond) && len(is.Body.List) > 0 && i+1 < len(list) {
+			if _, ret := is.Body.List[len(is.Body.List)-1].(*ast.ReturnStmt); ret {
+				if _, isGuard := w.guard(is.Cond); isGuard {
+					synth := &ast.IfStmt{Cond: is.Cond, Body: is.Body, Else: &ast.BlockStmt{List: list[i+1:]}}
+					return append(res, w.stmt(synth)...)
+				}
+			}
+		}
 		res = append(res, w.stmt(s)...)
 	}
 	return res
@@ -903,6 +972,12 @@ func (w *walker) stmt(s ast.Stmt) []Tok {
 		}
 		if len(bt) == 0 && len(et) == 0 {
 			return res
+		}
+		// `if x != nil { x.Serialize(w) }`: a writer-side nil guard; the body is taken as written and
+		// the guard is recorded apart (the reader has no counterpart: a nil value is not round-trippable)
+		if be, ok := x.Cond.(*ast.BinaryExpr); ok && be.Op == token.NEQ && w.f.Src(be.Y) == "nil" && x.Else == nil {
+			NilGuards = append(NilGuards, w.f.Src(x.Cond))
+			return append(res, bt...)
 		}
 		res = append(res, Tok{K: "other", S: "if " + w.f.Src(x.Cond)})
 		res = append(res, bt...)
@@ -983,6 +1058,25 @@ func (w *walker) stmt(s ast.Stmt) []Tok {
 		var res []Tok
 		if x.Init != nil {
 			res = append(res, w.calls(x.Init)...)
+		}
+		// dispatch on a decoded field, with a selected label: only that case (or default) is walked
+		if sel, ok := CaseSel[w.f.Src(x.Tag)]; ok {
+			var dflt *ast.CaseClause
+			for _, c := range x.Body.List {
+				cc := c.(*ast.CaseClause)
+				if cc.List == nil {
+					dflt = cc
+				}
+				for _, e := range cc.List {
+					if w.f.Src(e) == sel {
+						return append(res, w.block(cc.Body)...)
+					}
+				}
+			}
+			if dflt != nil {
+				return append(res, w.block(dflt.Body)...)
+			}
+			return res
 		}
 		// dispatch on a decoded field
 		if !WalkCases {
